@@ -247,7 +247,7 @@ func checkExpr(r *rng.R, cols []string, s *hSchema) string {
 	e := rng.Pick(r, []string{
 		"%[1]s > 0", "%[1]s >= 0 AND %[1]s < 100", "%[1]s <> %[2]s", "(%[1]s > 0) OR (%[2]s IS NULL)", "%[1]s IN (1, 2, 3)",
 		"length(%[1]s) > 0", "%[1]s <> ')'", "%[1]s <> '('", "%[1]s != 'it''s'", "%[1]s NOT LIKE 'a,b%%'", "abs(%[1]s) < max(1, 2)",
-		"%[1]s <> 'check (x)'", "%[1]s BETWEEN -1 AND 1", "coalesce(%[1]s, %[2]s) IS NOT NULL", "%[1]s <> \"dq\"",
+		"%[1]s <> 'check (x)'", "%[1]s BETWEEN -1 AND 1", "coalesce(%[1]s, %[2]s) IS NOT NULL", "%[1]s <> \"dq\"", "%[1]s <> \"(x\"", "%[1]s <> \")\" AND %[1]s > 0",
 	})
 	if strings.Contains(e, "')'") || strings.Contains(e, "'('") {
 		s.tag("check-paren-in-string")
@@ -255,7 +255,7 @@ func checkExpr(r *rng.R, cols []string, s *hSchema) string {
 	if strings.Contains(e, "check (") {
 		s.tag("check-has-check")
 	}
-	if strings.Contains(e, `"dq"`) {
+	if strings.Contains(e, `"dq"`) || strings.Contains(e, `"(x"`) || strings.Contains(e, `")"`) {
 		s.tag("check-dq-string")
 	}
 	return fmt.Sprintf(e, c, d)
